@@ -180,9 +180,11 @@ theorem executeTx_failed_exact {c : Ctx} {w : World} {bp : Nat} {tx : Tx} {res :
             · subst h; simp at hf
             · split at h
               · subst h; simp at hf
-              · obtain ⟨fee, q1, q2, q3, q4⟩ := finishVm_failed_exact hso m2 h hf hl
-                simp only [getCopy_id] at q3 q4
-                exact ⟨_, q1, rfl, q2, q3, q4⟩
+              · split at h
+                · subst h; simp at hf
+                · obtain ⟨fee, q1, q2, q3, q4⟩ := finishVm_failed_exact hso m2 h hf hl
+                  simp only [getCopy_id] at q3 q4
+                  exact ⟨_, q1, rfl, q2, q3, q4⟩
           · obtain ⟨fee, q1, q2, q3, q4⟩ := finishVm_failed_exact hso m2 h hf hl
             simp only [getCopy_id] at q3 q4
             exact ⟨_, q1, rfl, q2, q3, q4⟩
